@@ -27,6 +27,7 @@ import shutil
 import sys
 import tempfile
 import warnings
+import weakref
 from collections import Counter
 from typing import Any, Callable, Optional
 
@@ -304,6 +305,53 @@ class _ScandirResult:
         pass
 
 
+_REAL_ID = id
+
+
+class SimIds:
+    """Object identities as the library sees them (`id(...)` inside every loaded `swcgeom` module).
+
+    CPython only promises that `id()` is unique among *live* objects; which dead object's address the next
+    allocation receives depends on allocator state the simulator does not control - so a run that depends on it
+    cannot be replayed.  This seam makes the reuse a decided, repeatable event: an identity is released when its
+    object dies (weak-reference callback) and handed, last-released first, to the next new object *of the same
+    type* that is asked for its id - the worst legal behaviour, and what pymalloc's per-size free lists tend to do.
+    Objects that cannot be weakly referenced (int, str, tuple, list, dict) keep their real id."""
+
+    BASE = 1 << 60
+
+    def __init__(self, world: "World"):
+        self.world = world
+        self.by_rid: dict[int, tuple] = {}
+        self.free: dict[str, list[int]] = {}
+        self.n = 0
+
+    def _dead(self, rid: int) -> None:
+        ent = self.by_rid.pop(rid, None)
+        if ent is not None:
+            self.free.setdefault(ent[2], []).append(ent[1])
+
+    def __call__(self, obj) -> int:
+        rid = _REAL_ID(obj)
+        ent = self.by_rid.get(rid)
+        if ent is not None and ent[0]() is obj:
+            return ent[1]
+        try:
+            wr = weakref.ref(obj, lambda _w, rid=rid: self._dead(rid))
+        except TypeError:
+            return rid
+        tname = type(obj).__qualname__
+        fl = self.free.get(tname)
+        if fl:
+            sid = fl.pop()
+            self.world.fired_quiet("identity_reused")
+        else:
+            sid = self.BASE + self.n
+            self.n += 1
+        self.by_rid[rid] = (wr, sid, tname)
+        return sid
+
+
 class World:
     def __init__(self):
         base = "/dev/shm" if os.path.isdir("/dev/shm") and os.access("/dev/shm", os.W_OK) else None
@@ -491,6 +539,16 @@ class World:
         os.scandir = self._sim_scandir
         os.listdir = self._sim_listdir
         np.random.rand = self._sim_rand
+        # identity seam: `id` as resolved inside every loaded swcgeom module (module globals shadow builtins)
+        self.sim_ids = SimIds(self)
+        self._id_patched = []
+        for name, mod in list(sys.modules.items()):
+            if mod is not None and (name == "swcgeom" or name.startswith("swcgeom.")) and "id" not in vars(mod):
+                try:
+                    setattr(mod, "id", self.sim_ids)
+                    self._id_patched.append(mod)
+                except Exception:  # noqa: BLE001
+                    pass
         self._wctx = warnings.catch_warnings(record=True)
         self.warnings = self._wctx.__enter__()
         warnings.simplefilter("always")
@@ -506,6 +564,11 @@ class World:
             os.scandir = self._saved["os.scandir"]
             os.listdir = self._saved["os.listdir"]
             np.random.rand = self._saved["np.random.rand"]
+            for mod in getattr(self, "_id_patched", []):
+                try:
+                    delattr(mod, "id")
+                except Exception:  # noqa: BLE001
+                    pass
             self._wctx.__exit__(None, None, None)
             self._installed = False
         shutil.rmtree(self.root, ignore_errors=True)
